@@ -164,6 +164,11 @@ def run_c19(prop, tier):
                 write_files(td, files)      # ovnisort rewrites streams: fresh copy per tool
                 rc, out, err = emusrv.run_tool(tools[t], TOOL_ARGS[t] + [td], timeout=8,
                                                env_extra={"ASAN_OPTIONS": "detect_leaks=0:abort_on_error=1:allocator_may_return_null=1"})
+                if rc == "timeout":
+                    # a deterministic case that timed out is re-run alone with a much longer limit before it is called a hang
+                    write_files(td, files)
+                    rc, out, err = emusrv.run_tool(tools[t], TOOL_ARGS[t] + [td], timeout=90,
+                                                   env_extra={"ASAN_OPTIONS": "detect_leaks=0:abort_on_error=1:allocator_may_return_null=1"})
                 san = ""
                 if "AddressSanitizer" in err or "runtime error" in err:
                     for l in err.split("\n"):
